@@ -195,7 +195,23 @@ RULE = (
     'reply\'s OE at most once before its first byte, OO once after its last '
     'byte iff it was written completely; the exploration must contain a '
     'schedule in which disconnect() returns between E and O and one in '
-    'which the packet is never read.  Seeds change the packet '
+    'which the packet is never read.  Bursts across the batch limits of '
+    'the networking thread (xb histories): on a connection in play with '
+    'one listener in each class (ie, io: clientbound KeepAlivePacket; oe, '
+    'oo: serverbound KeepAlivePacket; nobody ignores) the server sends n '
+    'keep-alives with distinct ids in ONE piece, m = 0: while the '
+    'networking thread idles; m in {1, 49}: the user queues m chat packets '
+    'and the server sends the burst inside the client\'s send call of the '
+    'm-th, so that the writes and the reads of that lap of the loop count '
+    'together; n in {49, 50, 51, 52, 101, 120} at 757 (quick) / every n in '
+    '45..60 and 95..125 at 757 and 340 (thorough), every m.  Oracle: each '
+    'keep-alive of the burst reaches ie then io, once each; each reply oe, '
+    'then its bytes, then oo, once each; each chat is written once; the '
+    'server decodes every reply once (in the order of the keep-alives) and '
+    'every chat once; guards: an execution in which 50 keep-alives are '
+    'dispatched before the first reply is written and more afterwards, one '
+    'in which m + the number dispatched before the first reply reaches 50 '
+    'with fewer than 50 dispatched, one with n > 100.  Seeds change the packet '
     'field values and the order of tasks only.  state = distinct (protocol, '
     'history, per-packet call log with state seen at call time, server '
     'receipts, final state); transitions = listener calls + reactions + '
@@ -1710,8 +1726,282 @@ def xc_configurations(tier, v):
 
 def w_xchunk(ctx, task):
     base, cfgs = task
+    if base['family'] == 'xb':
+        for n, m in cfgs:
+            run_b(ctx, dict(base, n=n, m=m))
+        return
     for t in cfgs:
         run_x(ctx, dict(base, cfg=as_cfg(t)))
+
+
+# ---------------------------------------------------------------------------
+# xb: bursts across the batch limits of the networking thread's loop.  The
+# server sends n keep-alives in one piece; with m > 0 it does so inside the
+# client's send call of the m-th of m queued chat packets, so that the writes
+# and the reads of one lap of the loop count together.  One listener per class,
+# nobody ignores: every packet owes every stage, however the client batches.
+
+B_LIMIT = 50            # only used to name what an execution has shown
+B_NS_QUICK = (49, 50, 51, 52, 101, 120)
+B_NS_THOROUGH = tuple(range(45, 61)) + tuple(range(95, 126))
+B_MS = (0, 1, 49)
+B_NEED = (
+    'reads alone fill a lap: %d keep-alives dispatched before the first '
+    'reply is written, more of the burst dispatched afterwards' % B_LIMIT,
+    'writes and reads share a lap: after m queued chats fewer than %d '
+    'keep-alives are dispatched before the first reply is written (m + '
+    'dispatched >= %d), the rest afterwards' % (B_LIMIT, B_LIMIT),
+    'a burst of more than %d keep-alives, every one dispatched and answered'
+    % (2 * B_LIMIT),
+)
+
+
+class BurstServer(StepServer):
+    """Sends the events of self.burst in one piece as soon as it has decoded
+    the burst_at-th play packet of the client (inside the client's send
+    call)."""
+    burst_at = None
+    burst = ()
+
+    def _play(self, pid, r, payload):
+        RefServer._play(self, pid, r, payload)
+        if self.burst_at is not None and len(self.play_rx) == self.burst_at:
+            self.burst_at = None
+            for ev in self.burst:
+                self.play(ev)
+
+
+def b_ids(sc):
+    start = 1000 if not sc['seed'] else \
+        random.Random(sc['seed']).randrange(1, 2 ** 30)
+    return [start + 7 * i for i in range(sc['n'])]
+
+
+def b_chats(sc):
+    return ['c%d' % i for i in range(sc['m'])]
+
+
+def b_body(W, sc):
+    S = W.S
+    cl = classes()
+    real, rev = cl['real'], cl['rev']
+    v = sc['version']
+
+    def factory(vconn):
+        srv = BurstServer(vconn, protoids.ids, W.rank)
+        W.servers.append(srv)
+        return srv
+    W.net.listen('srv', 25565, factory)
+    conn = W.connection(allowed_versions={v})
+    problems = []
+
+    def pkey(p):
+        name = rev.get(type(p))
+        if name is None:
+            return ('?' + type(p).__module__.rsplit('.', 2)[-2] + '.'
+                    + type(p).__name__, None)
+        return (name, getattr(p, KEYFIELD[name], None))
+
+    def make(g):
+        def callback(packet):
+            S.event('L', g, 0, pkey(packet))
+        return callback
+
+    def guarded(what, fn, *a, **kw):
+        try:
+            fn(*a, **kw)
+        except Exception as e:
+            problems.append(('api-exception', '%s raised %s: %s'
+                             % (what, type(e).__name__, e)))
+            return False
+        return True
+    for g in REG_ORDER:
+        guarded('register_packet_listener', conn.register_packet_listener,
+                make(g), real['cb.KeepAlive' if g[0] == 'i'
+                              else 'sb.KeepAlive'],
+                early=(g[1] == 'e'), outgoing=(g[0] == 'o'))
+    if guarded('connect', conn.connect):
+        W.settle()
+    if not W.servers:
+        if not problems:
+            raise ToolError('xb set-up: connect() returned and no connection '
+                            'was opened')
+        return {'problems': problems, 'diverged': True}
+    srv, vc = W.servers[0], W.net.conns[0]
+    ok = srv.state == 'login' and srv.login_name is not None
+    if ok:
+        srv.step(('success',))
+        W.settle()
+        ok = type(conn.reactor).__name__ == 'PlayingReactor' and \
+            not S.stuck() and bool(S.live())
+    if not ok:
+        problems.append(('diverged', 'the login with passive listeners did '
+                         'not reach the play state: server state %r, login '
+                         'name %r, errors %r, reactor %s'
+                         % (srv.state, srv.login_name, srv.errors[:2],
+                            type(conn.reactor).__name__)))
+        return {'problems': problems, 'diverged': True}
+    events = [('keepalive', k) for k in b_ids(sc)]
+    if sc['m']:
+        srv.burst_at, srv.burst = sc['m'], events
+        for text in b_chats(sc):            # queued: one lap writes them all
+            guarded('write_packet', conn.write_packet,
+                    real['sb.Chat'](message=text))
+    else:
+        for ev in events:                   # one burst
+            srv.play(ev)
+    W.settle()
+    if srv.burst_at is not None and not problems:
+        raise ToolError('xb: the server never saw chat %d, no burst sent '
+                        '(play_rx %r)' % (sc['m'], srv.play_rx[:3]))
+    return {
+        'log': list(S.log), 'problems': problems, 'c2s': bytes(vc.c2s),
+        'frames': list(srv.frames), 'play_rx': list(srv.play_rx),
+        'errors': list(srv.errors),
+        'consumed': vc.consumed, 'pushed': vc.pushed_total,
+        'thread_exc': sorted(type(a.exc).__name__ for a in S.agents
+                             if a.exc is not None),
+        'conn_exc': None if conn.exception is None
+        else type(conn.exception).__name__,
+        'thread_alive': bool(S.live()),
+    }
+
+
+def b_judge(sc, obs, rank):
+    """-> ([(check name, explanation)], facts, per-packet sequences)."""
+    out = list(obs['problems'])
+    facts = set()
+    if obs.get('diverged'):
+        return out[:1], facts, None
+    n, m = sc['n'], sc['m']
+    ids, chats = b_ids(sc), b_chats(sc)
+    seq, complete, lastpos, fails, partial = x_project(obs, sc['version'],
+                                                       rank)
+    want = {}
+    for k in ids:
+        want[('cb.KeepAlive', k)] = [('L', 'ie', 0), ('L', 'io', 0)]
+        want[('sb.KeepAlive', k)] = [('L', 'oe', 0), ('wire',),
+                                     ('L', 'oo', 0)]
+    for k in [('sb.Chat', text) for text in chats] + [
+            ('sb.HandShake', 2), ('sb.LoginStart', 'vfuser')]:
+        want[k] = [('wire',)]
+    how = 'burst of %d keep-alives%s' % (
+        n, ' sent while the client writes the last of %d queued chat '
+        'packets' % m if m else '')
+    bad = []
+    for k in sorted(set(want) | set(seq), key=repr):
+        w, g = want.get(k, []), seq.get(k, [])
+        if w == g:
+            continue
+        if k not in want:
+            bad.append(('unexpected-packet', 'listener calls or frames for '
+                        '%r, which is not part of the history: %s'
+                        % (k, x_show(g))))
+            continue
+        wc = [e for e in w if e[0] == 'L']
+        gc_ = [e for e in g if e[0] == 'L']
+        name = 'call-set' if sorted(wc) != sorted(gc_) else \
+            'call-order' if wc != gc_ else 'wire-order' \
+            if ('wire',) in g else 'write-suppression'
+        pos = ' (number %d of the burst)' % (ids.index(k[1]) + 1) \
+            if k[1] in ids else ''
+        bad.append((name, 'packet %r%s: every matching listener is owed '
+                    'exactly one call, nobody signals ignore: expected %s, '
+                    'observed %s' % (k, pos, x_show(w), x_show(g))))
+    if bad:
+        nbad = len(bad)
+        bad.sort(key=lambda b: ('call-set', 'call-order', 'wire-order',
+                                'write-suppression',
+                                'unexpected-packet').index(b[0]))
+        out.append((bad[0][0], '%s; %d packet%s judged wrong, the first: %s'
+                    % (how, nbad, '' if nbad == 1 else 's', bad[0][1])))
+    # (the order of the calls across different packets is not judged: the
+    # statement orders the stages of one packet)
+    rx_ka = [r[1] for r in obs['play_rx'] if r[0] == 'keepalive']
+    rx_chat = [r[1] for r in obs['play_rx'] if r[0] == 'chat']
+    rest = [r for r in obs['play_rx'] if r[0] not in ('keepalive', 'chat')]
+    if rx_ka != ids or rx_chat != chats or rest:
+        lost = [k for k in ids if k not in rx_ka]
+        out.append(('server-receipts', '%s: the server is owed each reply '
+                    'and each chat once: %d keep-alive replies decoded for '
+                    '%d keep-alives (never answered: %r), chats %r of %r, '
+                    'other packets %r'
+                    % (how, len(rx_ka), n, lost[:5], rx_chat[:3], chats[:3],
+                       rest[:3])))
+    if obs['errors']:
+        out.append(('server-errors', 'the reference server could not accept '
+                    'what the client sent: %r' % obs['errors'][:2]))
+    # what the execution has shown about the batching (vacuity guards)
+    first_reply = next((i for i, e in enumerate(obs['log'])
+                        if e[0] == 'L' and e[1] == 'oe'), None)
+    if first_reply is not None:
+        before = sum(1 for e in obs['log'][:first_reply]
+                     if e[0] == 'L' and e[1] == 'ie')
+        if not m and before >= B_LIMIT and n > before:
+            facts.add(B_NEED[0])
+        if m and before < B_LIMIT <= m + before and n > before:
+            facts.add(B_NEED[1])
+        facts.add('keep-alives dispatched before the first reply is '
+                  'written: m=%d -> %d' % (m, before))
+    if n > 2 * B_LIMIT and not out:
+        facts.add(B_NEED[2])
+    seen, res = set(), []
+    for name, text in out:
+        if name not in seen:
+            seen.add(name)
+            res.append((name, text))
+    return res, facts, seq
+
+
+def run_b(ctx, sc):
+    rank = harness.setup()['rank']
+    sc = {'family': 'xb', 'version': int(sc['version']),
+          'seed': int(sc['seed']), 'n': int(sc['n']), 'm': int(sc['m'])}
+    x = harness.run(lambda W: b_body(W, sc), horizon=2000000,
+                    seed=sc['seed'])
+    ctx.count()
+    ctx.traces += 1
+    shape = 'xb burst n=%d m=%d' % (sc['n'], sc['m'])
+    if x.failure is not None:
+        res, facts, seq = [('hang', 'the client %s: %s' % x.failure)], (), None
+    else:
+        res, facts, seq = b_judge(sc, x.result, rank)
+    if seq is not None:
+        obs = x.result
+        ctx.transitions += sum(len(s) for s in seq.values())
+        ctx.state((sc['version'], shape, sorted(seq.items(), key=repr),
+                   obs['play_rx'], obs['thread_alive']))
+        if any(e[0] == 'L' for s in seq.values() for e in s):
+            ctx.note((shape, sc['version']))
+        ctx.outcome('xb m=%d: thread %s, exceptions %s/%s' % (
+            sc['m'], 'alive' if obs['thread_alive'] else 'ended',
+            ','.join(obs['thread_exc']) or '-', obs['conn_exc'] or '-'))
+    if not res:
+        for f in list(facts) + ['v%d %s' % (sc['version'], shape)]:
+            f = 'xfact xb: %s' % f
+            ctx.extra[f] = ctx.extra.get(f, 0) + 1
+    for name, text in res:
+        ctx.violation('%s v%d %s' % (shape, sc['version'], name),
+                      'protocol %d, listeners ie=[C] io=[C] (C = clientbound '
+                      'KeepAlivePacket) oe=[C] oo=[C] (C = serverbound '
+                      'KeepAlivePacket), connection in play: %s'
+                      % (sc['version'], text), dict(sc))
+    return res
+
+
+def b_tasks(ctx, rng):
+    ns = B_NS_THOROUGH if ctx.thorough else B_NS_QUICK
+    versions = (757, 340) if ctx.thorough else (757,)
+    tasks = []
+    for v in versions:
+        items = [(n, m) for n in ns for m in B_MS]
+        rng.shuffle(items)
+        base = {'family': 'xb', 'version': v, 'seed': ctx.seed}
+        step = 6 if ctx.thorough else 2
+        for i in range(0, len(items), step):
+            tasks.append((base, items[i:i + step]))
+    return tasks, {'versions': list(versions), 'n': list(ns),
+                   'm': list(B_MS)}
 
 
 def x_tasks(ctx, rng):
@@ -2432,6 +2722,8 @@ def run(ctx):
                 tasks.append((v, kind, ctx.seed, cf[i:i + 40]))
     rng.shuffle(tasks)
     xtasks, xcounts = x_tasks(ctx, rng)
+    btasks, bcounts = b_tasks(ctx, rng)
+    xtasks += btasks
     rng.shuffle(xtasks)
     ctx.extra['configurations_per_version'] = per_version
     ctx.extra['late_configurations_per_version'] = late_per_version
@@ -2445,6 +2737,7 @@ def run(ctx):
     ctx.extra['x_histories'] = {
         'xa': ['%s/%s' % sd for sd in XA_SHAPES],
         'xc': ['%s kick=%d %s' % h for h in XC_SHAPES]}
+    ctx.extra['xb_bursts'] = bcounts
     ctx.pmap(w_chunk, tasks)
     if not ctx.violations:
         need = ['route %s: %s listener fires' % (r, g)
@@ -2469,7 +2762,7 @@ def run(ctx):
     for v in VERSIONS:
         ctx.cls('v%d x histories' % v, sum(
             n for k, n in xf.items() if k[4:].startswith('v%d ' % v)))
-    for need in X_NEED:
+    for need in X_NEED + tuple('xb: ' + f for f in B_NEED):
         if need in xf:
             ctx.cls(need, xf[need])
         elif not ctx.violations:
@@ -2518,6 +2811,8 @@ def replay_schedule(ctx, case):
 def replay(ctx, case):
     if 'params' in case:
         return replay_schedule(ctx, case)
+    if case.get('family') == 'xb':
+        return run_b(ctx, case)
     if case.get('family') in ('xa', 'xc'):
         sc = {k: case[k] for k in case if k != 'cfg'}
         for k in ('version', 'seed', 'kick'):
